@@ -1081,7 +1081,7 @@ func rigB(r *ev.Run) {
 		rec := map[string]any{"tool_output": trunc(out), "exit_status": rc}
 		viaClient := i%3 == 0 && len(out) < 1<<20
 		r.Eval(1)
-		r.Guard(c, "ListSlots", rec, func() {
+		if _, hung := r.GuardWithin(c, "ListSlots", rec, ev.CaseBudget(), func() {
 			var got []string
 			var err error
 			if viaClient {
@@ -1116,7 +1116,10 @@ func rigB(r *ev.Run) {
 			}
 			r.Nontrivial("tool:" + out)
 			r.Count("tool outputs judged", 1)
-		})
+		}); hung {
+			r.Violation(c, "operation-does-not-return:ListSlots", fmt.Sprintf("slot listing number %d on this server (tool exit status %d this time) did not return within %s; goroutines inside the repository:\n%s", i, rc, ev.CaseBudget(), ev.RepoStacks(2000)), rec)
+			return
+		}
 		if i < 2 {
 			r.Sample(rec)
 		}
